@@ -348,9 +348,16 @@ func runProxyCase(k *toks, o *out) {
 	pc := &pxCase{actual: map[int]string{}}
 	defer pc.closeAll()
 	// ---- configuration tokens (the model's reading); only the listeners matter here
-	_ = k.str()  // name
-	_ = k.bool() // keep
-	_ = k.int()  // dialog timeout
+	_ = k.str() // name
+	// keep: the service's keepNextHopRoute text (it is in the YAML), then optionally '|' and the value of the
+	// environment variable KEEP_NEXT_HOP_ROUTE the proxy is started under
+	keepTok := k.str()
+	if p := strings.IndexByte(keepTok, '|'); p >= 0 {
+		os.Setenv("KEEP_NEXT_HOP_ROUTE", keepTok[p+1:])
+	} else {
+		os.Unsetenv("KEEP_NEXT_HOP_ROUTE")
+	}
+	_ = k.int() // dialog timeout
 	for n := k.int(); n > 0 && !k.bad; n-- {
 		k.str()
 		k.str()
